@@ -79,8 +79,9 @@ def build_entity(e, now):
                                                           "NameFormat": "urn:oasis:names:tc:SAML:2.0:attrname-format:uri"})
             for c in vals:
                 ET.SubElement(at, q(SAML, "AttributeValue")).text = c
-    for role in ("idpsso", "spsso", "attribute_authority"):
-        rd = e["roles"].get(role)
+    for role, rd in [(role_, e["roles"].get(role_)) for role_ in ("idpsso", "spsso", "attribute_authority")] + \
+            [(role_, rd_) for role_, rd_ in sorted((e.get("roles_b") or {}).items())]:
+        # (roles_b: one more descriptor of a kind the entity already has - the schema allows any number)
         if rd is None:
             continue
         r = ET.SubElement(ed, q(MD, ROLE_TAG[role]), {"protocolSupportEnumeration": rd.get("protocols", SAMLP)})
@@ -367,6 +368,8 @@ class MdSim(object):
                     continue
                 ee = copy.deepcopy(e)
                 ee["roles"] = copy.deepcopy(roles)
+                if ee.get("roles_b"):
+                    ee["roles_b"] = {k: v for k, v in ee["roles_b"].items() if k in roles}
                 ents[e["id"]] = ee
             self.model[self._mkey(key)] = ents
         else:
@@ -462,8 +465,9 @@ class MdSim(object):
             if rd is None:
                 continue
             has_role = True
+            rd_b = (e.get("roles_b") or {}).get(role) or {}
             eps = [(B[x[0]], x[1], (str(x[2]) if svc == "assertion_consumer_service" else None))
-                   for x in rd.get(svc, []) if B[x[0]] == binding]
+                   for x in list(rd.get(svc, [])) + list(rd_b.get(svc, [])) if B[x[0]] == binding]
             cands.append(eps)
         if not has_role:
             if out[0] == "ok" and out[1]:
@@ -698,6 +702,18 @@ def gen_entity(r, idx, dup_of=None):
             rd["attribute_service"] = [(r.pick(["soap", "soap", "post"]), base + "/aa/%d" % j) for j in range(r.randrange(1, 3))]
         roles[role] = rd
     e = {"id": eid, "roles": roles}
+    if r.chance(0.2):
+        # a second descriptor of a kind the entity already has (endpoints only, no keys of its own)
+        kind_ = r.pick([k_ for k_ in roles if k_ != "spsso"] or [None])
+        if kind_ == "idpsso":
+            e["roles_b"] = {kind_: {"single_sign_on_service": [(r.pick(["redirect", "post"]), base + "/b/sso/%d" % j) for j in range(r.randrange(1, 3))],
+                                    "single_logout_service": [(r.pick(["redirect", "post", "soap"]), base + "/b/slo/%d" % j) for j in range(r.randrange(0, 2))]}}
+        elif kind_ == "attribute_authority":
+            e["roles_b"] = {kind_: {"attribute_service": [(r.pick(["soap", "post"]), base + "/b/aa/%d" % j) for j in range(r.randrange(1, 3))]}}
+        if e.get("roles_b") and roles[kind_].get("protocols"):
+            # (same protocol support as its sibling: what happens to a SAML 1.1-only descriptor next to a SAML 2.0
+            # one of the same kind is not specified by the property - DESIGN.md section 15)
+            e["roles_b"][kind_]["protocols"] = roles[kind_]["protocols"]
     if r.chance(0.25):
         e["valid_until"] = r.pick([-86400, -2, -1, 0, 1, 2, 3600, 86400])
     if r.chance(0.4):
@@ -810,6 +826,10 @@ def generate(seed, prop, tier):
                     if idxs:
                         ev["index"] = r.pick(idxs)
             evs.append(ev)
+            if r.chance(0.3):
+                # the same question again (and again): a lookup must not change what the store holds
+                for _ in range(r.randrange(1, 3)):
+                    evs.append(dict(ev))
     return {"engine": "mdsim", "prop": "C16", "seed": seed, "tier": tier, "knobs": {"class": "faulty" if faulty else "clean", "nsrc": nsrc},
             "events": evs}
 
